@@ -64,6 +64,11 @@ def step (st : St) (toks : List String) : St × String :=
       | .error (.hintNear t) => (st, s!"reject near {t} adm={showNatList ((hs.find? (fun h => h.c.tok == t)).map (fun h => st.p.nearestSet h.c.meas) |>.getD [])}")
     | none => (st, "bad-op")
   | ["clear"] => ({ st with p := st.p.clear }, "ok")
+  | ["setcap", c] =>
+    -- C11 only: a rejected call may have grown the capacity (not an observable C11 lists); resynchronise
+    match c.toNat? with
+    | some c => ({ st with p := { st.p with arch := { st.p.arch with store := { st.p.arch.store with cap := c } } } }, "ok")
+    | none => (st, "bad-op")
   | ["state"] => (st, dump st)
   | "nearest" :: ms =>
     match ms.mapM parseRatList with
